@@ -55,8 +55,26 @@ def one_position(mod, fn, w, pos, decisions):
     for k in range(32): it.store(Ptr(sp.r, k), xs[k], 1)
     try:
         it.call(fn.name, [out, sp, Poly.const(w)])
+        if st["arrivals"] >= 1: st["returned"] = True      # the loop was left from this position
     except Stop: pass
     return it, st, x, carry
+
+def naf_replay(cfg, w, xs):
+    """native: the digits non_adjacent_form(w) returns for concrete scalars against the recoding's contract"""
+    from vp import native
+    try: outs = native.run(cfg, [("sc_naf", [int(x).to_bytes(32, "little"), bytes([w])]) for x in xs])
+    except Exception as e: return None, "native runner failed: " + str(e)[:200]
+    half = 1 << (w - 1)
+    for x, got in zip(xs, outs):
+        if got is None: return None, "native runner does not know sc_naf"
+        if isinstance(got, tuple): return True, dict(scalar=hex(x), native_result=str(got)[:160])
+        ds = [b - 256 if b > 127 else b for b in got]
+        tot = sum(d << i for i, d in enumerate(ds))
+        bad = tot != x or any(d != 0 and (d % 2 == 0 or abs(d) >= half) for d in ds)
+        if bad: return True, dict(scalar=hex(x), w=w, sum_of_digits=hex(tot) if tot >= 0 else "-" + hex(-tot), note="digits returned by the natively built non_adjacent_form do not recode the scalar")
+    return False, "native digits recode all %d candidate scalars" % len(xs)
+
+REPLAY_SCALARS = [(1 << 255) - 1, (1 << 255) - 19, (1 << 254) + (1 << 253) + 5, (1 << 252) + (1 << 245), (1 << 253) - 1, (1 << 252) + 27742317777372353535851937790883648493 - 1, 1, 0, 0x0f0f0f0f0f0f0f0f0f0f0f0f0f0f0f0f0f0f0f0f0f0f0f0f0f0f0f0f0f0f0f0f]
 
 def naf_certificate(rep, cfg, modpath, w, positions):
     t0 = time.time()
@@ -73,6 +91,22 @@ def naf_certificate(rep, cfg, modpath, w, positions):
             while True:
                 it, st, x, carry = one_position(mod, fn, w, pos, decisions)
                 npaths += 1
+                if st["post"] is None and st.get("returned"):
+                    # the loop ends at a position below 256: sound only if no scalar can still owe a carry or a digit there
+                    low_ = it.ctx.bits(x, 0, pos) if pos > 0 else ZERO
+                    if pos > 0: it.ctx.assume.append(c_or(Cond("cmp", "eq", carry, ZERO), Cond("cmp", "eq", it.ctx.bits(x, pos - 1, pos), ONE)))
+                    else: it.ctx.assume.append(Cond("cmp", "eq", carry, ZERO))
+                    pr0 = smt.Problem(it.ctx)
+                    v, model, dt, info = pr0.check(Cond("cmp", "ne", low_ - carry.scale(1 << pos), x), timeout_s=60, split=False); nq += 1
+                    rec["goals"].append(dict(goal="the loop is left at position %d: every scalar below 2^255 is completely recoded there" % pos, verdict=v, solver_s=round(dt, 3), kind="QF_LIA", **info))
+                    if v == "sat":
+                        env = {vv: (model or {}).get(vv, 0) for vv in it.ctx.bounds}
+                        xv = sum((it.ctx.resolve(Poly.var("x%d" % k)).eval(env) & 255) << (8 * k) for k in range(32))
+                        ok, det = naf_replay(cfg, w, [xv] + REPLAY_SCALARS); rec["replay"] = det
+                        if ok: status = "violation"; rec["reproduced"] = True; rec["why"] = "w=%d: the recoding loop stops at position %d although digits / a carry are still owed: %s" % (w, pos, str(det)[:300])
+                        else: status = "inconclusive"; rec["why"] = "loop exit at position %d not reproduced natively: %s" % (pos, det)
+                    elif v != "unsat": status = "inconclusive"; rec["why"] = "solver verdict %s for the loop exit at %d" % (v, pos)
+                    break
                 if st["post"] is None: raise Unsupported("loop header not reached again from position %d" % pos)
                 if pos == positions[0] and not decisions:
                     i0 = st["initial"]
@@ -109,7 +143,9 @@ def naf_certificate(rep, cfg, modpath, w, positions):
                         if v == "sat" and status != "violation":
                             env = {vv: (model or {}).get(vv, 0) for vv in ctx.bounds}
                             xb = bytes(ctx.resolve(Poly.var("x%d" % k)).eval(env) & 255 for k in range(32))
-                            status = "violation"; rec["why"] = "w=%d pos=%d: %s fails for x = %s, carry = %s" % (w, pos, gname, xb.hex(), env.get("carry"))
+                            ok, det = naf_replay(cfg, w, [int.from_bytes(xb, "little")] + REPLAY_SCALARS); rec["replay"] = det
+                            if ok: status = "violation"; rec["reproduced"] = True; rec["why"] = "w=%d pos=%d: %s fails (pre-state x = %s, carry = %s); natively: %s" % (w, pos, gname, xb.hex(), env.get("carry"), str(det)[:300])
+                            else: status = "inconclusive"; rec["why"] = "w=%d pos=%d: %s fails in the inductive step (x = %s, carry = %s) but no candidate scalar is mis-recoded natively (%s): the invariant may need strengthening" % (w, pos, gname, xb.hex(), env.get("carry"), det)
                         elif v != "sat" and status == "ok": status = "inconclusive"; rec["why"] = "solver verdict %s at pos %d" % (v, pos)
                 dnext = st["used"][:]
                 while dnext and dnext[-1] == 1: dnext.pop()
